@@ -79,7 +79,7 @@ func init() {
 	register("C03", &propDef{
 		Run: runC03,
 		Info: propInfo{
-			Explanation: "NAT filtering rules: both FilteringBehavior switches are exhaustive and agree (outbound records none/dst IP/dst IP:port, inbound tests none/src IP/src IP:port); in NAPT mode the destination rewrite is dominated by (live mapping found for the destination) and by the ok edge of the exact lookup filters[key] on that mapping, and rewrites to that mapping's .local on the clone that is returned; every successful NAPT outbound translation passes an insert of the selected key into the mapping's filter set or the ok edge of its lookup, and new mappings get a fresh set; everything reachable from the inbound translation inserts into no table / permission set and stores to no mapping or NAT field (effects); the child router pushes exactly the translation's result and only on the nil-error edge, synchronously; 1:1 unpaired destinations cannot reach a successful return.",
+			Explanation: "The mapping rules of C02 are evaluated here too under the prefix M. (one live owner per external address, agreeing keys, expiry: 'the internal address and port that created the mapping' presupposes them). NAT filtering rules: both FilteringBehavior switches are exhaustive and agree (outbound records none/dst IP/dst IP:port, inbound tests none/src IP/src IP:port); in NAPT mode the destination rewrite is dominated by (live mapping found for the destination) and by the ok edge of the exact lookup filters[key] on that mapping, and rewrites to that mapping's .local on the clone that is returned; every successful NAPT outbound translation passes an insert of the selected key into the mapping's filter set or the ok edge of its lookup, and new mappings get a fresh set; everything reachable from the inbound translation inserts into no table / permission set and stores to no mapping or NAT field (effects); the child router pushes exactly the translation's result and only on the nil-error edge, synchronously; 1:1 unpaired destinations cannot reach a successful return.",
 			RuleText:    "one obligation per rule; sites are switch tables, calls, map operations, returns; non-trivial = matched at least one site",
 			Assumptions: commonAssumptions,
 		},
